@@ -880,6 +880,11 @@ class TunnelCommunity(Community):
             if request.from_circuit_id not in self.exit_sockets:
                 self.logger.info("Created for unknown exit socket %s", request.from_circuit_id)
                 return
+            if request.from_circuit_id in self.relay_from_to:
+                # The exit socket of a tunnel that already relays lingers for remove_tunnel_delay: an answer to an
+                # earlier, abandoned extend must not re-point the established relay.
+                self.logger.info("Created for already extended circuit %s", request.from_circuit_id)
+                return
             session_keys = self.exit_sockets[request.from_circuit_id].hop.keys
             self.remove_exit_socket(request.from_circuit_id, remove_now=True)
 
